@@ -193,12 +193,23 @@ deriving Inhabited
 
 def topState (st : List StackItem) : Option Nat := st.head?.map (·.state)
 
+def layLen : Option Slice → Nat
+  | some (_, l) => l
+  | none => 0
+
+/-- the layout ahead after the lexer was re-run following a reduce (parser.rs Reduce arm): `old` was
+    the layout ahead and `oldPos` the position before the re-lex.  If the re-lex skipped more layout
+    (`newPos > oldPos`) the layout kept so far and the new one, adjacent in the input, are merged
+    (`start = oldPos.saturating_sub(old.len())`); otherwise the old one is put back. -/
+def mergeLay (old : Option Slice) (oldPos newPos : Nat) : Option Slice :=
+  if newPos > oldPos then some (oldPos - layLen old, newPos - (oldPos - layLen old)) else old
+
 def liftTok (hist : List Tok) (stack : List StackItem) (res : List Tree) (slice : Option Slice)
-    (r : Ctx × Outcome Tok) (keepLay : Option (Option Slice)) : StepOut :=
+    (r : Ctx × Outcome Tok) (keepLay : Option (Option Slice × Nat)) : StepOut :=
   match r with
   | (ctx, .ok tk) =>
     let ctx := match keepLay with
-      | some l => { ctx with lay := l }
+      | some (l, p) => { ctx with lay := mergeLay l p ctx.pos.pos }
       | none => ctx
     .next ⟨stack, res, slice, ctx, tk, hist⟩
   | (ctx, .err e) => .stop ctx (.err e)
@@ -261,7 +272,7 @@ def step (env : Env) (nt : Ctx → Ctx × Outcome Tok) (c : Cfg) : StepOut :=
       let res := Tree.node p sp lay (TreeList.ofList children) :: c.res.drop len
       let slice : Option Slice := some (sp.s.pos, sp.e.pos - sp.s.pos)
       let ctx := { c.ctx with span := ctxSpan, state := s' }
-      liftTok c.hist stack res slice (nt ctx) (some c.ctx.lay)
+      liftTok c.hist stack res slice (nt ctx) (some (c.ctx.lay, c.ctx.pos.pos))
     | .accept =>
       match c.res with
       | [] => .stop c.ctx (.panic "res_stack.pop().unwrap()")
@@ -291,7 +302,8 @@ def layoutParse (env : Env) (ls : Nat) (ctx : Ctx) (fuel : Nat) : Ctx × Outcome
 
 /-- `next_token` of the main parser (parser.rs:199-295): lex; if nothing matches run the layout
     parser once and lex again (`layout_parsing` flag); otherwise partial-parse STOP or error.
-    State and span of the context are restored after the layout parse (position and layout stay). -/
+    State and span of the context are restored after the layout parse; the position too unless the
+    layout parser returned a non-empty layout (a failed or empty layout parse skips nothing). -/
 def nextTokenMain (env : Env) (partialParse : Bool) (fuel : Nat) (ctx : Ctx) : Ctx × Outcome Tok :=
   let (ctx, toks) := lexNext env ctx (env.t.sorted ctx.state)
   match pickToken env.longest toks with
@@ -302,16 +314,18 @@ def nextTokenMain (env : Env) (partialParse : Bool) (fuel : Nat) (ctx : Ctx) : C
     | some ls =>
       let cur := ctx.state
       let sp := ctx.span      -- the layout parser shifts through this context: keep the content span
+      let p0 := ctx.pos       -- … and, when it finds no layout, the position
       let (ctx, r) := layoutParse env ls ctx fuel
       let ctx := { ctx with state := cur, span := sp }
+      let back := { ctx with pos := p0 }
       match r with
       | .ok pr =>
         match pr.slice with
         | some (off, len) =>
           if len > 0 then nextTokenBase env partialParse { ctx with lay := some (off, len) }
-          else noToken env partialParse ctx
-        | none => noToken env partialParse ctx
-      | .err _ => noToken env partialParse ctx
+          else noToken env partialParse back
+        | none => noToken env partialParse back
+      | .err _ => noToken env partialParse back
       | .panic s => (ctx, .panic s)
       | .fuel => (ctx, .fuel)
 
